@@ -257,12 +257,12 @@ def _check_kl(ck, inst, f, p, t, mname, cls):
     ck.check(len(kc) >= 1, "C10.R3", inst + ":single-basis KL used [%s]" % _c(p), f.site(), "_single_basis_KL is never called")
     for c in kc:
         a = c[7]
-        tp, mp = a.get("target_probs"), a.get("nn_probs")
+        tp, mp = argp(a, 0), argp(a, 1)  # _single_basis_KL(target, model) by position
         if tp is None or mp is None:
             continue
         # both arguments are distributions over the same N basis states
         e_ = c[5]
-        sh_t, sh_m = getattr(e_.get("target_probs"), "shape", None), getattr(e_.get("nn_probs"), "shape", None)
+        sh_t, sh_m = getattr(argp(e_, 0), "shape", None), getattr(argp(e_, 1), "shape", None)
         if sh_t is not None and sh_m is not None:
             ck.check(tuple(sh_t) == tuple(sh_m) and len(sh_t) == 1, "C10.R3", inst + ":target and model distributions over the same basis states [%s]" % _c(p), f.site(),
                      "the single-basis KL compares a target array of shape %s with model probabilities of shape %s: the target's Born distribution has one entry per basis state%s"
